@@ -703,14 +703,17 @@ class BaseProject(object, metaclass=ABCMeta):
         """
         Remove record information on `absence_time_list`.
         """
-        self.product.remove_absence_time_list(self.absence_time_list)
-        self.workflow.remove_absence_time_list(self.absence_time_list)
-        self.organization.remove_absence_time_list(self.absence_time_list)
+        # Only steps which exist in the logs can be removed, and each of them only once.
+        absence_time_list = sorted(
+            set(t for t in self.absence_time_list if 0 <= t < len(self.cost_list))
+        )
+        self.product.remove_absence_time_list(absence_time_list)
+        self.workflow.remove_absence_time_list(absence_time_list)
+        self.organization.remove_absence_time_list(absence_time_list)
 
-        for step_time in sorted(self.absence_time_list, reverse=True):
-            if step_time < len(self.cost_list):
-                self.cost_list.pop(step_time)
-        self.time = self.time - len(self.absence_time_list)
+        for step_time in sorted(absence_time_list, reverse=True):
+            self.cost_list.pop(step_time)
+        self.time = self.time - len(absence_time_list)
         self.absence_time_list = []
 
     def insert_absence_time_list(self, absence_time_list):
@@ -721,11 +724,18 @@ class BaseProject(object, metaclass=ABCMeta):
             absence_time_list (List[int]):
                 List of absence step time in simulation.
         """
-        # duplication check
+        # duplication check (each new step once) and range check (a step can only be
+        # inserted inside the log, which grows by one entry with every inserted step)
         new_absence_time_list = []
-        for time in absence_time_list:
-            if time not in self.absence_time_list:
+        log_length = len(self.cost_list)
+        for time in sorted(absence_time_list):
+            if (
+                time not in self.absence_time_list
+                and time not in new_absence_time_list
+                and 0 <= time < log_length
+            ):
                 new_absence_time_list.append(time)
+                log_length = log_length + 1
 
         self.product.insert_absence_time_list(new_absence_time_list)
         self.workflow.insert_absence_time_list(new_absence_time_list)
